@@ -12,33 +12,42 @@ TEXTS = ["a", "bb", " ", "c d"]
 NEW_TEXTS = ["T", "uu", "w w"]
 
 
-def arrangement(rng, depth):
-    """up to 3 text pieces around up to 3 element/comment/PI children"""
+def arrangement(rng, depth, pfx=False):
+    """up to 3 text pieces around up to 3 element/comment/PI children; with pfx (the root declares xmlns:p next to a
+    default namespace) also prefixed elements that carry un-prefixed attributes and default-namespace descendants"""
     out, prev_text, n_el, n_tx = [], False, 0, 0
     for _ in range(rng.choice([0, 1, 2, 3, 4, 5, 6])):
         if rng.random() < 0.45 and not prev_text and n_tx < 3:
-            out.append(rng.choice(TEXTS).replace(" ", " ") if True else "")
+            out.append(rng.choice(TEXTS))
             prev_text, n_tx = True, n_tx + 1
         elif n_el < 3:
             r = rng.random()
-            if r < 0.3:
+            if pfx and r < 0.3:
+                out.append(rng.choice(['<p:b k="v"/>', '<p:b k="v"><i k="w"/>t</p:b>', '<p:b><i k="w">t</i><!--c-->u</p:b>',
+                                       '<p:b p:k="v"><p:c/><i/></p:b>']))
+            elif r < 0.3:
                 out.append(rng.choice(["<x/>", '<x k="v"/>', '<z p:k="w" xmlns:p="u"/>']))
             elif r < 0.6 and depth > 0:
-                out.append("<y>%s</y>" % arrangement(rng, depth - 1))
+                out.append("<y>%s</y>" % arrangement(rng, depth - 1, pfx))
             elif r < 0.8:
-                out.append("<!--c-->")
+                out.append("<!--c%d-->" % n_el)
             else:
-                out.append("<?p q?>")
+                out.append("<?p q%d?>" % n_el)
             prev_text, n_el = False, n_el + 1
     return "".join(out)
 
 
+def root_siblings(rng, tagc):
+    """0-3 comments / PIs before or after the root, distinguishable from each other"""
+    n = rng.choice([0, 0, 0, 0, 0, 1, 2, 3])
+    return "".join(rng.choice(["<!--%s%d-->" % (tagc, i), "<?%s%d v?>" % (tagc, i)]) for i in range(n))
+
+
 def gen_doc(rng):
-    root = rng.choice(["<r>", "<r>", '<r xmlns="d">', '<r xmlns="d" k="v">'])
-    body = arrangement(rng, 1)
-    pro = "<!--pro-->" if rng.random() < 0.1 else ""
-    epi = "<?e f?>" if rng.random() < 0.1 else ""
-    return pro + root + body + "</r>" + epi
+    root = rng.choice(["<r>", "<r>", '<r xmlns="d">', '<r xmlns="d" k="v">', '<r xmlns="d" xmlns:p="u">',
+                       '<r xmlns="d" xmlns:p="u" k="v">'])
+    body = arrangement(rng, 1, pfx="xmlns:p" in root)
+    return root_siblings(rng, "pro") + root + body + "</r>" + root_siblings(rng, "epi")
 
 
 def gen_pool(rng):
